@@ -11,7 +11,12 @@ What the slice keeps / drops (stated so that a pass is not over-read):
     `?`), outside nested blocks and closures and before any `&&` / `||` of the statement; `args[N..].iter().map(|x| x.to_T())` and
     `args.iter()[.skip(N)].map(|x| x.to_T())` tails with an unwrap of the element become a loop over the tail
   * dropped: everything else — unwraps that are only reached conditionally (they may be guarded), unwraps of values that are not arguments
-    (results of callbacks), the receiver `args[0]` of a method (its kind follows from the class the method is registered on, not from the gate)"""
+    (results of callbacks), the receiver `args[0]` of a method (its kind follows from the class the method is registered on, not from the gate)
+
+Second family of generated obligations (I_<native>_<var>, C11): a Number argument that a body narrows to an index with `as usize` at top level
+has passed an integrality test first (`if V.fract() != 0.0 { return error }`): a fractional or NaN index is an error, never silently truncated.
+The slice keeps the top-level `if V.fract() != 0.0` / `if V < 0.0` early returns and the cast; a native whose statements between the binding and
+the cast mention V in any other way is skipped with a note; casts nested in conditionals are not looked at."""
 import os, re, hashlib, sys
 sys.path.insert(0, os.path.dirname(os.path.dirname(os.path.dirname(os.path.abspath(__file__)))))
 import rsitems
@@ -86,6 +91,32 @@ def _slice_native(body, argn):
 # variant of the unit, so that the main unit is the residual that holds; any OTHER native that fails is a violation
 FINDING_NATIVES = ['ListCollect', 'TupleCollect', 'IterZip', 'IterChain']
 
+def _index_slice(body, argn):
+  """-> list of (var, [ops]) : for every `let V = ARGS[K].to_num();` at top level, the top-level statements up to the first `V as usize` cast that
+  mention V, as ops: ('ret_if_fract',) for `if V.fract() != 0.0 { ..return.. }`, ('ret_if_neg',) for `if V < 0.0 { ..return.. }`, ('cast',) for a
+  statement whose unconditional part contains `V as usize`; None when some statement mentions V in a way the slice does not understand"""
+  out = []
+  sts = _statements(body)
+  for n, st in enumerate(sts):
+    m = re.match(r'^\s*let\s+(?:mut\s+)?(\w+)\s*=\s*%s\[(\d+)\]\s*\.\s*to_num\(\)\s*;\s*$' % argn, st)
+    if not m: continue
+    v = m.group(1); ops = []; ok = True; seen_cast = False
+    for st2 in sts[n + 1:]:
+      if not re.search(r'\b%s\b' % v, st2): 
+        if _can_exit(st2) and not seen_cast:
+          # an exit that does not depend on V: later statements are conditional on it, but it cannot establish anything about V
+          pass
+        continue
+      head, cut = _uncond_part(st2)
+      if re.match(r'^\s*if\s+%s\s*\.\s*fract\(\)\s*!=\s*0\.0\s*$' % v, head) and _can_exit(st2): ops.append('ret_if_fract'); continue
+      if re.match(r'^\s*if\s+%s\s*<\s*0\.0\s*$' % v, head) and _can_exit(st2): ops.append('ret_if_neg'); continue
+      if re.search(r'\b%s\s+as\s+usize\b' % v, head): ops.append('cast'); seen_cast = True; break
+      if re.match(r'^\s*let\s+(?:mut\s+)?%s\s*=' % v, st2): break       # shadowed by something else
+      ok = False; break
+    if ok and seen_cast: out.append((v, int(m.group(2)), ops))
+    elif not ok and re.search(r'\b%s\s+as\s+usize\b' % v, ''.join(sts[n + 1:])): out.append((v, int(m.group(2)), None))
+  return out
+
 def generate(repo, variant=None):
   root = os.path.join(repo, 'laythe_lib', 'src')
   items, notes = [], []
@@ -140,6 +171,14 @@ def generate(repo, variant=None):
       head = '/// %s:%d  %s (%s %s, params %s)\npub fn N_%s(args: &[Value])\n  requires gate(Arity::%s, seq![%s], args@),\n{' % (
         rel, body.count('\n', 0, mb.start()) + 1, st, md['kind'], arity, md['params'], st, arity, ', '.join('PK::' + k for k in kinds))
       text = head + '\n' + '\n'.join(lines) + '\n}\n'
+      if variant is None:
+        for v, k, ops in _index_slice(fbody, argn):
+          if ops is None:
+            notes.append('%s: %s index variable %s: a statement between its binding and its cast is outside the index slice (skipped)' % (rel, st, v)); continue
+          ihead = '/// %s  %s: `%s = args[%d].to_num()` is narrowed to an index\npub fn I_%s_%s(%s: F64)\n{' % (rel, st, v, k, st, v, v)
+          ibody = ''.join({'ret_if_fract': '  if verif_has_fract(%s) { return; }\n' % v, 'ret_if_neg': '  if verif_is_neg(%s) { return; }\n' % v, 'cast': '  let _ = verif_as_index(%s);\n' % v}[o] for o in ops)
+          items.append(dict(path='I_%s_%s' % (st, v), text=ihead + '\n' + ibody + '}\n', body_at=len(ihead), file=rel, line=body.count('\n', 0, mb.start()) + 1,
+                            sha256=hashlib.sha256(fbody.encode('utf-8')).hexdigest()[:16], tags=['C11', 'C16'], spec='a number narrowed to an index is integral'))
       items.append(dict(path='N_' + st, text=text, body_at=len(head), file=rel, line=body.count('\n', 0, mb.start()) + 1,
                         sha256=hashlib.sha256((fbody + repr(md)).encode('utf-8')).hexdigest()[:16], tags=['C16', 'C11'],
                         spec='requires gate(Arity::%s, [%s], args)' % (arity, ', '.join(kinds))))
